@@ -82,22 +82,26 @@ func ZZ_C07_device() {
 		hu = reqAt.Add(eff)
 	}
 	if now.After(hu.Add(zzC07Margin)) {
-		zz.Cover("expired", true)
-		zz.Cover("expired:session-expiry", expSet)
-		zz.Cover("expired:requested-at+configured", !expSet && life != 0)
-		zz.Cover("expired:requested-at+default", !expSet && life == 0)
-		zz.Observe("expired", expired)
 		zz.Assert(err != nil, "no device/user code validates after honoured-until")
 		zz.Assert(expired, "after honoured-until the validator answers expired_token")
+		if now.After(hu.Add(2 * zzC07Margin)) {
+			zz.Cover("expired", true)
+			zz.Cover("expired:session-expiry", expSet)
+			zz.Cover("expired:requested-at+configured", !expSet && life != 0)
+			zz.Cover("expired:requested-at+default", !expSet && life == 0)
+			zz.Observe("expired", expired)
+		}
 	} else if now.Before(hu.Add(-zzC07Margin)) {
-		zz.Cover("live", true)
-		zz.Cover("live:session-expiry", expSet)
-		zz.Cover("live:requested-at+configured", !expSet && life != 0)
-		zz.Cover("live:requested-at+default", !expSet && life == 0)
-		zz.Observe("expired", expired)
 		zz.Assert(!expired, "no expiry error before honoured-until")
 		zz.Assert(err == nil, "a minted, unexpired code validates")
-	} else {
+		if now.Before(hu.Add(-2 * zzC07Margin)) {
+			zz.Cover("live", true)
+			zz.Cover("live:session-expiry", expSet)
+			zz.Cover("live:requested-at+configured", !expSet && life != 0)
+			zz.Cover("live:requested-at+default", !expSet && life == 0)
+			zz.Observe("expired", expired)
+		}
+	} else if now.After(hu.Add(-zzC07Margin/2)) && now.Before(hu.Add(zzC07Margin/2)) {
 		zz.Cover("boundary", true)
 	}
 }
